@@ -41,7 +41,7 @@ def build_one(b):
 def run(prop, tier, seed, seconds):
     t0 = time.time()
     blist = QUICK if tier == 'quick' else ALL
-    nseeds = 1500 if tier == "quick" else 12000
+    nseeds = 1500 if tier == "quick" else 3000  # thorough: 32 builds + 16 extras masks; every (configuration, seed) hash is kept for the comparison
     if seconds:
         nseeds = max(20, int(nseeds * seconds / 30))
     viol = []
